@@ -25,9 +25,9 @@ subs = json.load(open(subs_path))
 thorough = tier == "thorough"
 # (body, threads, preemption bound)
 if thorough:
-    jobs = [("B1", 2, "none"), ("B1", 3, "3"), ("B2", 2, "none"), ("B2", 3, "3"), ("B3", 2, "none"), ("B3", 3, "3"), ("B4", 2, "none"), ("B4", 3, "none"), ("B4", 4, "3")]
+    jobs = [("B1", 2, "none"), ("B1", 3, "3"), ("B2", 2, "none"), ("B2", 3, "3"), ("B3", 2, "none"), ("B3", 3, "3"), ("B4", 2, "none"), ("B4", 3, "none"), ("B4", 4, "3"), ("B5", 2, "none"), ("B5", 3, "3")]
 else:
-    jobs = [("B1", 2, "3"), ("B1", 3, "2"), ("B2", 2, "3"), ("B2", 3, "2"), ("B3", 2, "none"), ("B3", 3, "2"), ("B4", 2, "none"), ("B4", 3, "3")]
+    jobs = [("B1", 2, "3"), ("B1", 3, "2"), ("B2", 2, "3"), ("B2", 3, "2"), ("B3", 2, "none"), ("B3", 3, "2"), ("B4", 2, "none"), ("B4", 3, "3"), ("B5", 2, "3"), ("B5", 3, "2")]
 timeout = 3300 if thorough else 100
 
 def run(job):
@@ -57,7 +57,7 @@ for job, rc, out, err, wall in results:
     elif rc == -999:
         row.update(complete=False, note="wall cap hit - this body/bound is NOT covered"); capped.append(row)
     else:
-        msg = [l for l in err.splitlines() if "panicked" in l or "assert" in l or "B1:" in l or "B2:" in l or "B3:" in l or "B4:" in l or "Arc" in l or "deadlock" in l.lower() or "leak" in l.lower()]
+        msg = [l for l in err.splitlines() if "panicked" in l or "assert" in l or "B1:" in l or "B2:" in l or "B3:" in l or "B4:" in l or "B5" in l or "Arc" in l or "deadlock" in l.lower() or "leak" in l.lower()]
         row.update(complete=False, failed=True, exit=rc, message=" | ".join(msg[:6])[-900:] or err[-600:])
         viol.append(row)
     table.append(row)
@@ -69,6 +69,7 @@ cov = {
     "samples": [{"body": "B1", "what": "k threads run valid_actions / valid_actions_no_rep / is_terminal / take_action (incl. pass and 4th step) / clone / drop on one shared mid-turn state and one shared step-3 state with a 4-turn history while main drops its handles; every thread's fingerprints must equal the sequential ones"},
                 {"body": "B2", "what": "threads take different actions from a shared state, play 2 more turns on the shared history tail, drop in different orders"},
                 {"body": "B3", "what": "state handed over through a Mutex and expanded in the receiving thread while parent and sibling are used and dropped in the sender"},
+                {"body": "B5", "what": "k threads expand a shared mid-turn state in which the pass is withheld as a third repetition (eight shuffling turns behind it) and the turn-start state before it"},
                 {"body": "B4", "what": "several lists sharing a 4-node tail are read, tail()-ed and dropped concurrently (iterative Drop / Arc::into_inner race)"}],
     "exhaustive": (not capped) and (not vac),
     "exhaustive_meaning": "every interleaving of each listed body within the listed preemption bound ('none' = unbounded) was executed by loom",
